@@ -1009,7 +1009,7 @@ thread_local! {
 }
 
 pub fn run(opts: &Opts) -> i32 {
-    let n = opts.n(500, 25000);
+    let n = opts.n(1200, 25000);
     let mut ev = Evidence::new(
         PROP,
         "exploration",
